@@ -121,7 +121,7 @@ func perturbEntry(r *rng.R, k *kindOps, e Entry) (Entry, string) {
 	out := retime(e, e.Conds0Time())
 	nc := len(out.Conds)
 	choices := []string{"reason", "message", "gen", "status", "type", "dropcond", "addcond", "swapconds", "time"}
-	if len(out.Ref) == 6 {
+	if len(out.Ref) == 6 && k.mode != "whole" { // a ParentReference (flattened Gateway entries have their own perturbation)
 		choices = append(choices, "ref0", "ref1", "ref2", "ref3", "ref4", "ref5", "ref2nil", "ref4nil")
 	}
 	what := rng.Pick(r, choices)
